@@ -14,6 +14,20 @@ specification's state after every step (both worlds: "as is" and "intended", see
 A second pass ("widened") re-executes the same histories with arbitrary finite doubles substituted
 for the model's value alphabet and judges every step with the numeric bound oracle
 |x' - x| <= 0.5 * 10^-p (relative for %e / %g), in exact rational arithmetic (c18_widen.py).
+
+Instance families in which the model is covariant (Storage.tla header), all with expectations that do
+not come from the module under test:
+  title enumeration   Storage_title.cfg (table 7: one column per format class) replayed once per batch
+                      of titles taken from the PINNED copies of FLOATS / INTS / LONGFLOATS / EXPONENTIALS
+                      (c18_widen.py, 179 titles) and a list of unknown names: every title goes through
+                      writefile/readfile and both hdf writers / the three hdf readers and is compared
+                      with the model's decimals, dtype class and exact values
+  sparse dtypes       one of four (pixel int, pixel float, index) dtype triples per history; dtype.str and
+                      the itype attribute must survive
+  float32 columns     in the widened pass
+  c18_extra.py        integers beyond 2^53, long grain lists, hand-edited text files (ragged last row,
+                      blank lines), default group names and compression of the hdf writers
+Step laws of the hdf routes compare the sign of zero (text routes: "-0.0000" is within the precision).
 """
 from __future__ import print_function
 import os, sys, json, time, random, traceback, shutil
@@ -24,22 +38,24 @@ import c18_replay as R
 
 PROP = "C18"
 FINDING = "C18-hdf-stale-titles"
+TITLE_CFG = "Storage_title.cfg"
 
 # family -> (cfgs quick, cfgs thorough, operations that must occur in the emitted histories)
 CONFIGS = {
     "table": (["Storage_tab_q.cfg"], ["Storage_tab_t.cfg", "Storage_tab_t4.cfg"],
-              ["WriteText", "ReadText", "WriteHdf", "WriteHdfObj", "ReadHdf", "ReadAuto", "ReadMmap", "DropRow"]),
+              ["WriteText", "ReadText", "WriteHdf", "WriteHdfObj", "ReadHdf", "ReadAuto", "ReadMmap", "DropRow",
+               "ConvHdf"]),
     "pars": (["Storage_par_q.cfg"], ["Storage_par_t.cfg"], ["SavePars", "LoadFresh", "LoadInto"]),
     "grains": (["Storage_gr_q.cfg"], ["Storage_gr_t.cfg"],
                ["WriteGrains", "ReadGrains", "WriteUbis", "ReadUbis", "WriteGrainsH5", "ReadGrainsH5",
                 "PutGrainH5", "Reverse"]),
     "sparse": (["Storage_sp_q.cfg"], ["Storage_sp_t.cfg"], ["WriteSparse", "ReadSparse"]),
 }
-WRITES = {"WriteText", "WriteHdf", "WriteHdfObj", "SavePars", "WriteGrains", "WriteUbis", "WriteGrainsH5",
+WRITES = {"WriteText", "WriteHdf", "WriteHdfObj", "ConvHdf", "SavePars", "WriteGrains", "WriteUbis", "WriteGrainsH5",
           "PutGrainH5", "WriteSparse"}
 READS = {"ReadText", "ReadHdf", "ReadAuto", "ReadMmap", "LoadFresh", "LoadInto", "ReadGrains", "ReadUbis",
          "ReadGrainsH5", "ReadSparse"}
-WRITER_OF = {"WriteHdf": "colfile_to_hdf", "WriteSparse": "sparse_frame.to_hdf_group"}
+WRITER_OF = {"WriteHdf": "colfile_to_hdf", "ConvHdf": "colfile_to_hdf", "WriteSparse": "sparse_frame.to_hdf_group"}
 NPROC = 8
 WORKERS = int(os.environ.get("C18_WORKERS", "16"))
 
@@ -105,7 +121,7 @@ def stale_explained(hist, ea, ef):
     if k is None or k == 0:
         return False, "worlds do not differ"
     a = hist[k]
-    if a["op"] not in ("WriteHdf", "WriteSparse"):
+    if a["op"] not in ("WriteHdf", "ConvHdf", "WriteSparse"):
         return False, "first difference at %s" % a["op"]
     if ea[k]["res"] != "ok" or ef[k]["res"] != "ok":
         return False, "first difference is not a successful write"
@@ -113,9 +129,15 @@ def stale_explained(hist, ea, ef):
     pre = ea[k - 1]
     if pre != ef[k - 1]:
         return False, "pre states differ"
-    x = pre["mem"][o]
-    names_key = "ds" if a["op"] == "WriteHdf" else "px"
-    new = set(x["titles"]) if a["op"] == "WriteHdf" else set(x["pxo"])
+    if a["op"] == "ConvHdf":            # the written object is the text file at the other path
+        other = [q for q in pre["fs"] if q != p]
+        if len(other) != 1 or pre["fs"][other[0]]["k"] != "text":
+            return False, "ConvHdf without a text source"
+        x = pre["fs"][other[0]]
+    else:
+        x = pre["mem"][o]
+    names_key = "px" if a["op"] == "WriteSparse" else "ds"
+    new = set(x["pxo"]) if a["op"] == "WriteSparse" else set(x["titles"])
     f0 = pre["fs"][p]
     if f0["k"] != "hdf" or g not in R.D(f0["groups"]):
         return False, "group did not exist"
@@ -133,7 +155,7 @@ def stale_explained(hist, ea, ef):
     for t in stale:
         if ga[t] != old[t]:
             return False, "stale dataset %s changed" % t
-    earlier = [b for b in hist[1:k] if b["op"] in ("WriteHdf", "WriteHdfObj", "WriteSparse")
+    earlier = [b for b in hist[1:k] if b["op"] in ("WriteHdf", "WriteHdfObj", "ConvHdf", "WriteSparse")
                and b["p"] == p and b["g"] == g]
     if not earlier:
         return False, "no earlier write to the group"
@@ -167,15 +189,24 @@ def _init(shadow, scratch, recfile, widen_all=True):
 
 
 def _work(args):
-    family, lo, hi, root, widen = args
+    family, lo, hi, root, widen = args[:5]
+    batch = args[5] if len(args) > 5 else None          # title enumeration: number of the title batch
+    sel = args[6] if len(args) > 6 else None            # ... and the indices of the histories it replays
     recs, keys = _G["recs"], _G["keys"]
     out = []
-    for n in range(lo, hi):
+    for n in (range(lo, hi) if sel is None else sel):
         key = keys[n]
         try:
             hist, ea, ef = expectations(recs, key)
-            variant = n % 2
             import c18_widen as W
+            if batch is not None:
+                variant = (n + batch) % 4
+                ren = W.title_batches()[batch]
+                r = replay_titles(hist, ea, ef, os.path.join(root, "t%d_%d" % (batch, n)), variant, ren)
+                r["n"], r["variant"], r["batch"], r["rename"] = n, variant, batch, ren
+                out.append(r)
+                continue
+            variant = n % 4
             r = R.replay(family, hist, seeds_of(ea[0]), ea, ef, os.path.join(root, "b%d" % n), variant,
                          relations=W.relations)
             r["n"] = n
@@ -191,14 +222,35 @@ def _work(args):
     return out
 
 
-def replay_all(family, recs, keys, printed, shadow, widen=0, nproc=NPROC, widen_all=True):
+def renamed_seeds(seeds_raw, ren):
+    raw = {}
+    for o, x in seeds_raw.items():
+        x = dict(x)
+        x["titles"] = [ren[t] for t in x["titles"]]
+        x["cols"] = {ren[t]: c for t, c in R.D(x["cols"]).items()}
+        x["dt"] = {ren[t]: c for t, c in R.D(x["dt"]).items()}
+        raw[o] = x
+    return raw
+
+
+def replay_titles(hist, ea, ef, root, variant, ren):
+    """one history of Storage_title.cfg with the model's titles replaced by `ren` (real objects and
+    expected worlds alike): compared with the model's decimals / dtype classes / exact values"""
+    import c18_widen as W
+    return R.replay("table", hist, renamed_seeds(seeds_of(ea[0]), ren), ea, ef, root, variant,
+                    relations=W.relations, prep=lambda cw: W.rename_world(cw, ren))
+
+
+def replay_all(family, recs, keys, printed, shadow, widen=0, nproc=NPROC, widen_all=True, batches=None, sel=None):
     _G["widen_all"] = widen_all
     root = os.path.join(common.scratch(), "fs_%s_%d" % (family, int(time.time() * 1000) % 100000))
     os.makedirs(root)
     n = len(keys)
     chunk = max(1, min(200, n // (nproc * 4) + 1))
     jobs = [(family, lo, min(n, lo + chunk), root, widen) for lo in range(0, n, chunk)]
-    if nproc <= 1 or n < 200:
+    if batches is not None:
+        jobs = [(family, 0, n, root, 0, b, tuple(sel if sel is not None else range(n))) for b in batches]
+    if nproc <= 1 or (n if batches is None else len(jobs) * len(jobs[0][6])) < 200:
         import gc
         _G["recs"], _G["keys"] = recs, keys
         gc.collect()
@@ -217,7 +269,7 @@ def replay_all(family, recs, keys, printed, shadow, widen=0, nproc=NPROC, widen_
         except cf.process.BrokenProcessPool as e:
             raise common.MachineryError("a replay worker died (%s)" % e)
     out = [r for part in res for r in part]
-    out.sort(key=lambda r: r["n"])
+    out.sort(key=lambda r: (r.get("batch", 0), r["n"]))
     shutil.rmtree(root, True)
     return out
 
@@ -232,7 +284,7 @@ class Judge(object):
         self.stale_n = {}    # description -> number of histories
         self.nstale = 0
 
-    def case(self, family, cfg, hist, ea, ef, r, mode="model"):
+    def case(self, family, cfg, hist, ea, ef, r, mode="model", extra=None):
         chk = self.chk
         chk.traces += 1
         ops = [a["op"] for a in hist[1:]]
@@ -242,7 +294,7 @@ class Judge(object):
         if "crash" in r:
             raise common.MachineryError("replay crashed:\n" + r["crash"])
         chk.evaluations += r.get("checks", 0)
-        if r.get("order_dev"):
+        if r.get("order_dev") and not mode.startswith("titles"):     # (substituted names: the order is not the model's)
             chk.notes["hdf_title_order_deviations"] = chk.notes.get("hdf_title_order_deviations", 0) + 1
         if r["okF"]:
             return "held"
@@ -253,6 +305,7 @@ class Judge(object):
         hist, ea, ef = hist[:k + 1], ea[:k + 1], ef[:k + 1]
         obj = {"family": family, "cfg": cfg, "mode": mode, "hist": hist, "expA": ea, "expF": ef,
                "variant": r.get("variant", 0)}
+        obj.update(extra or {})
         if r["okA"]:
             ok, why = stale_explained(hist, ea, ef)
             if ok:
@@ -266,7 +319,9 @@ class Judge(object):
             what = "real code follows the as-is model but the model does not explain it as F11 (%s): %s" % (
                 why, r["firstF"])
         else:
-            what = "%s: %s" % (" ; ".join(R._opstr(a) for a in hist), r["firstF"])
+            what = "%s%s: %s" % (" ; ".join(R._opstr(a) for a in hist),
+                                 (" with titles %s" % (extra["rename"],)) if extra and extra.get("rename") else "",
+                                 r["firstF"])
             if r["firstA"] != r["firstF"]:
                 what += "  [as-is world: %s]" % r["firstA"]
         sig = (family, r.get("sigF"))
@@ -280,6 +335,8 @@ class Judge(object):
         if w is None:
             return
         self.chk.evaluations += w.get("checks", 0)
+        nt = self.chk.notes
+        nt["widened_float32_columns"] = nt.get("widened_float32_columns", 0) + w.get("f32_columns", 0)
         if w.get("crash"):
             raise common.MachineryError("widened replay crashed:\n" + w["crash"])
         if w["fail"]:
@@ -369,10 +426,67 @@ def run_cfg(chk, judge, family, cfg, cover, tier, widen, shadow):
         if len(chk.samples) < 4 and len(hist) >= 4 and ops[-1] in READS and any(o in WRITES for o in ops) \
                 and r["n"] % 89 == 0 and family not in [x.get("family") for x in chk.samples]:
             chk.sample({"family": family, "history": [R._opstr(a) for a in hist], "verdict": v})
+    if family == "sparse":
+        vc = chk.notes.setdefault("sparse_dtype_variants", {})
+        for r in results:
+            d = R.SPARSE_DTYPES[r.get("variant", 0) % len(R.SPARSE_DTYPES)]
+            k = "%s/%s/%s" % (d["i"], d["f"], d["itype"])
+            vc[k] = vc.get(k, 0) + 1
     chk.notes.setdefault("families", {})[cfg] = {
         "family": family, "states": res.states, "histories_replayed": len(keys), "verdicts": verdicts,
         "ops_in_histories": opcount, "replay_wall_s": round(time.time() - t0, 1)}
     return recs, keys
+
+
+def run_titles(chk, judge, shadow):
+    """title enumeration (see the module docstring): Storage_title.cfg x every batch of pinned titles"""
+    import c18_widen as W
+    cover = ["WriteText", "ReadText", "WriteHdf", "WriteHdfObj", "ReadHdf", "ReadAuto", "ReadMmap"]
+    res = common.run_tlc("Storage", os.path.join(common.SPECS, TITLE_CFG), workers=WORKERS, timeout=900, heap="2g")
+    chk.add_tlc("Storage titles (%s)" % TITLE_CFG, res, require_cover=cover)
+    if res.violated:
+        raise common.MachineryError("TLC: invariant %s violated in %s\n%s" % (res.violated, TITLE_CFG, res.stdout[-3000:]))
+    recs, skipped = parse_records(res.printed)
+    if skipped or len(recs) != res.states:
+        res = common.run_tlc("Storage", os.path.join(common.SPECS, TITLE_CFG), workers=1, timeout=900, heap="2g")
+        recs, skipped = parse_records(res.printed)
+        if skipped or len(recs) != res.states:
+            raise common.MachineryError("%s: %d emitted records for %d states" % (TITLE_CFG, len(recs), res.states))
+    keys = leaves(recs)
+    # the two seed objects are the same table: the leaves "one writer of o1 ; one reader into o1" are replayed
+    # per batch (writer ; writer leaves do not depend on the names and are covered by the table family)
+    sel = [i for i, k in enumerate(keys) if len(k) == 3 and k[1][0] in WRITES and k[1][1] == "o1"
+           and k[2][0] in READS and k[2][1] == "o1"]
+    routes = sorted(set((keys[i][1][0], keys[i][2][0]) for i in sel))
+    for wr in ("WriteText", "WriteHdf", "WriteHdfObj"):
+        for rd in (("ReadText",) if wr == "WriteText" else ("ReadText", "ReadHdf", "ReadAuto", "ReadMmap")):
+            if (wr, rd) not in routes:
+                raise common.MachineryError("vacuity: route %s ; %s not among the leaves of %s" % (wr, rd, TITLE_CFG))
+    batches = W.title_batches()
+    t0 = time.time()
+    # (in this process: a few hundred two-step histories cost less than starting the worker pool)
+    results = replay_all("table", recs, keys, res.printed, shadow, batches=list(range(len(batches))), sel=sel, nproc=1)
+    if len(results) != len(batches) * len(sel):
+        raise common.MachineryError("title enumeration: %d results for %d cases" % (len(results), len(batches) * len(sel)))
+    done = {}
+    verdicts = {}
+    for r in results:
+        hist, ea, ef = expectations(recs, keys[r["n"]])
+        v = judge.case("table", TITLE_CFG, hist, ea, ef, r, mode="titles/%d" % r.get("batch", -1),
+                       extra={"rename": r.get("rename")})
+        verdicts[v] = verdicts.get(v, 0) + 1
+        route = "text" if hist[1]["op"] == "WriteText" else hist[1]["op"]
+        for t in (r.get("rename") or {}).values():
+            done.setdefault(t, set()).add(route)
+    want = [t for t in W.CLASS_OF]
+    missing = [t for t in want if done.get(t) != {"text", "WriteHdf", "WriteHdfObj"}]
+    if missing:
+        raise common.MachineryError("vacuity: titles not exercised by every writer: %s" % missing[:10])
+    chk.notes["title_enumeration"] = {
+        "pinned_titles": {c: len(ts) for c, ts in W.CLASS_TITLES.items()}, "titles_exercised": len(done),
+        "batches": len(batches), "routes": ["%s;%s" % wr for wr in routes], "cases": len(results),
+        "verdicts": verdicts, "replay_wall_s": round(time.time() - t0, 1),
+        "module_table_vs_pinned": W.formats_note()}
 
 
 def run_stale(chk, judge):
@@ -408,13 +522,13 @@ def run(tier, replay=None):
     chk.notes["hdf_title_order_deviations"] = 0
     for family in ("table", "pars", "grains", "sparse"):
         run_family(chk, judge, family, tier, widen, shadow)
+    run_titles(chk, judge, shadow)
     run_stale(chk, judge)
     # widened instances beyond the TLC alphabet (ints that are not binary64 values, grain lists longer than ten)
     import c18_extra
     xd = os.path.join(common.scratch(), "c18_extra")
     os.makedirs(xd, exist_ok=True)
-    for what, case in c18_extra.run_extra(chk, xd, common.seed()):
-        chk.violation(what, case)
+    extra = c18_extra.run_extra(chk, xd, common.seed())
     if tier == "thorough":
         res = common.run_tlc("Storage", os.path.join(common.SPECS, "Storage_tab_d5.cfg"), workers=WORKERS,
                              coverage=True, timeout=1500, heap="6g")
@@ -424,9 +538,11 @@ def run(tier, replay=None):
             raise common.MachineryError("TLC: %s violated in Storage_tab_d5.cfg" % res.violated)
         selftest()
     judge.report()
+    for what, case in extra:
+        chk.violation(what, case)
     chk.rule = ("one representative history per distinct (state, depth) of Storage.tla; every maximal history "
-                "is executed with real files and compared with the model after every step; non-trivial = "
-                "a write followed later by a read")
+                "is executed with real files and compared with the model after every step; Storage_title.cfg "
+                "once per batch of pinned titles (all 179 + unknown names); non-trivial = a write followed later by a read")
     chk.exhaustive = True
     chk.assumptions = [
         "python float()/int()/Fraction parse decimal text exactly (used to observe file contents)",
@@ -438,6 +554,17 @@ def run(tier, replay=None):
 def run_replay(chk, path):
     with open(path) as f:
         obj = json.load(f)["case"]
+    if "extra" in obj:          # an instance family of c18_extra.py: the family is re-executed (same seed)
+        import c18_extra
+        xd = os.path.join(common.scratch(), "c18_extra")
+        os.makedirs(xd, exist_ok=True)
+        for what, case in c18_extra.run_extra(chk, xd, common.seed()):
+            if case.get("extra") == obj["extra"]:
+                chk.violations.append((what, path))
+                print("  violation: %s" % what)
+        chk.rule = "replay of one instance family of c18_extra.py"
+        chk.exhaustive = False
+        return chk.finish()
     family, hist, ea, ef = obj["family"], obj["hist"], obj["expA"], obj["expF"]
     judge = Judge(chk, replay_path=path)
     if obj.get("mode") == "widened":
@@ -449,10 +576,15 @@ def run_replay(chk, path):
         judge.widened(family, obj.get("cfg"), hist, ea, ef, r)
     else:
         import c18_widen as W
-        r = R.replay(family, hist, seeds_of(ea[0]), ea, ef, os.path.join(common.scratch(), "replay_b"),
-                     obj.get("variant", 0), relations=W.relations)
+        if obj.get("rename"):
+            r = replay_titles(hist, ea, ef, os.path.join(common.scratch(), "replay_b"), obj.get("variant", 0),
+                              obj["rename"])
+        else:
+            r = R.replay(family, hist, seeds_of(ea[0]), ea, ef, os.path.join(common.scratch(), "replay_b"),
+                         obj.get("variant", 0), relations=W.relations)
         r["variant"] = obj.get("variant", 0)
-        v = judge.case(family, obj.get("cfg"), hist, ea, ef, r, mode="replay")
+        v = judge.case(family, obj.get("cfg"), hist, ea, ef, r, mode="replay",
+                       extra={"rename": obj.get("rename")} if obj.get("rename") else None)
         print("replay: %s -> %s%s" % (" ; ".join(R._opstr(a) for a in hist), v,
                                       "" if v == "held" else "  (%s)" % (r["firstF"],)))
     judge.report()
@@ -496,4 +628,22 @@ def selftest():
             raise common.MachineryError("selftest: perturbed %s was not rejected" % name)
     import c18_widen as W
     W.selftest(os.path.join(root, "stw"))
+    # 4. title enumeration: a title bound to the wrong class (a FLOATS name in the EXPONENTIALS column, an
+    #    unknown name in the INTS column) must be rejected, the right binding accepted
+    res = common.run_tlc("Storage", os.path.join(common.SPECS, TITLE_CFG), workers=1, timeout=600)
+    recs, _ = parse_records(res.printed)
+    keys = leaves(recs)
+    ren = W.title_batches()[5]
+    for first, second, wrong in (("WriteText", "ReadText", {"eps11": "detz"}), ("WriteHdfObj", "ReadHdf", {"Number_of_pixels": "ring"}),
+                                 ("WriteHdf", "ReadAuto", {"foo": "onlast"})):
+        key = [k for k in keys if len(k) == 3 and k[1][:2] == (first, "o1") and k[2][:2] == (second, "o1")][0]
+        hist, ea, ef = expectations(recs, key)
+        good = replay_titles(hist, ea, ef, os.path.join(root, "stt0" + first), 0, ren)
+        if not good["okF"]:
+            raise common.MachineryError("selftest: title batch rejected on %s: %s" % (first, good["firstF"]))
+        bad = dict(ren)
+        bad.update(wrong)
+        rr = replay_titles(hist, ea, ef, os.path.join(root, "stt1" + first), 0, bad)
+        if rr["okF"] or rr["okA"]:
+            raise common.MachineryError("selftest: title of another class %r accepted by %s ; %s" % (wrong, first, second))
     return True
